@@ -725,6 +725,9 @@ func (s *muxerStream) rotateParts(
 
 				if h != nil {
 					h(w, r)
+				} else {
+					// the part was evicted while the request was waiting
+					w.WriteHeader(http.StatusNotFound)
 				}
 			})
 	}
